@@ -198,6 +198,7 @@ var mutantCatalogue = map[string][]mutant{
 		{Name: "pending write deleted outright", File: "risc/app.go", Old: "\t\tctx.PendingWriteRegisters[register]--\n\t\tif ctx.PendingWriteRegisters[register] <= 0 {\n\t\t\tdelete(ctx.PendingWriteRegisters, register)\n\t\t}\n\t}\n}\n\n// IsWriteDataHazard", New: "\t\tdelete(ctx.PendingWriteRegisters, register)\n\t}\n}\n\n// IsWriteDataHazard"},
 	},
 	"C05": {
+		{Name: "victim dropped when the pending entry is removed", File: "proc/mvp6-1/mmu.go", Old: "\t\t\t\tu.pendings = append(u.pendings[:i], u.pendings[i+1:]...)\n\t\t\t}\n\t\t\tbreak\n", New: "\t\t\t\tu.pendings = append(u.pendings[:i], u.pendings[i+1:]...)\n\t\t\t}\n\t\t\treturn\n"},
 		{Name: "sub-line read from L1 under an L3 presence test", File: "proc/mvp8-0/cc.go", Old: "l1Addr, l1Data, exists := cc.l3.GetSubCacheLine(r.addrs, l1DCacheLineSize)", New: "l1Addr, l1Data, exists := cc.l1d.GetSubCacheLine(r.addrs, l1DCacheLineSize)"},
 		{Name: "probe answers found on a miss", File: "proc/mvp6-1/mmu.go", Old: "\t\t\tu.pendings = append(u.pendings, [2]int32{addrs[0], addrs[0] + l3CacheLineSize + 1})\n\t\t\treturn nil, false, false\n", New: "\t\t\tu.pendings = append(u.pendings, [2]int32{addrs[0], addrs[0] + l3CacheLineSize + 1})\n\t\t\treturn nil, false, true\n"},
 		{Name: "line fill one byte too long", File: "proc/mvp6-1/mmu.go", Old: "for i := 0; i < l3CacheLineSize; i++ {\n\t\tif int(addr)+i < 0", New: "for i := 0; i <= l3CacheLineSize; i++ {\n\t\tif int(addr)+i < 0"},
